@@ -19,6 +19,8 @@ func init() {
 			"iteration order of sets with non-primitive members is Unspecified",
 		},
 		Run: func(c *Ctx) {
+			// history clause first, so that each worker process meets it in its initial state
+			stdHistories(c, func(n string) bool { _, ok := refsC13[n]; return ok }, refOracle(refsC13))
 			cap := 60000
 			deepDict = c.Thorough
 			if c.Thorough {
